@@ -140,6 +140,17 @@ theorem closure_complete {svcs : AL Svc} (nd : (keys svcs).Nodup) (pol : Policy)
   | root hr hk => exact hc.1 _ hr hk
   | step _ e ih => exact hc.2 _ ih _ ((mem_succ_iff nd pol _ _).2 e)
 
+/-- the saturation always completes within `len(services)` rounds (pigeonhole), so the oracle's run-time check
+`Closed` (clause `closure-saturated`, kept as a guard) can never fail -/
+theorem closure_saturates (svcs : AL Svc) (pol : Policy) (roots : List String) :
+    Closed svcs pol roots (closure svcs pol roots) :=
+  closure_closed svcs pol roots
+
+/-- hence the executable closure of the spec *is* the inductive closure -/
+theorem closure_eq_reach {svcs : AL Svc} (nd : (keys svcs).Nodup) (pol : Policy) (roots : List String) (x : String) :
+    x ∈ closure svcs pol roots ↔ Reach svcs pol roots x :=
+  ⟨closure_sound nd pol roots x, closure_complete nd pol roots _ (closure_closed svcs pol roots) x⟩
+
 /-- the full description of a successful selection: for the closure `S` of the names, the result satisfies
 `SelectSpec` (enabled set = `S`, each selected service keeps exactly its dependencies inside `S`, nothing dangling,
 previously disabled services untouched), every service is conserved, resources are untouched -/
@@ -194,6 +205,33 @@ theorem select_error_iff {p : Proj} (g : Good p) {names : List String} (hn : nam
     · intro _
       simp [withSelectedServices, hw, ne]
   | outOfFuel => exact absurd hw (forEachService_fuel h.1 names pol)
+
+/-- the outcome the oracle expects (`selectWanted`) is the outcome of the model: rejected by one iff rejected by the other -/
+theorem selectWanted_none_iff {p : Proj} (g : Good p) {names : List String} (hn : names ≠ []) (pol : Policy) :
+    selectWanted p names pol = none ↔ withSelectedServices p names pol = .err := by
+  rw [select_error_iff g hn]
+  unfold selectWanted
+  by_cases h1 : names.any (fun n => decide (n ∉ keys p.services)) = true
+  · rw [if_pos h1]
+    obtain ⟨n, hn1, hn2⟩ := List.any_eq_true.1 h1
+    exact ⟨fun _ => .inl ⟨n, hn1, by simpa using hn2⟩, fun _ => rfl⟩
+  · rw [if_neg h1]
+    simp only []
+    have all : ∀ n ∈ names, n ∈ keys p.services := by
+      intro n hn1
+      apply Classical.byContradiction
+      intro c
+      exact h1 (List.any_eq_true.2 ⟨n, hn1, by simpa using c⟩)
+    by_cases h2 : (closure p.services pol names).any (fun x => decide (MissingRequired p.services pol x)) = true
+    · rw [if_pos h2]
+      obtain ⟨x, hx1, hx2⟩ := List.any_eq_true.1 h2
+      exact ⟨fun _ => .inr ⟨x, (closure_eq_reach g.1.1 pol names x).1 hx1, by simpa using hx2⟩, fun _ => rfl⟩
+    · rw [if_neg h2]
+      constructor
+      · intro c; cases c
+      · rintro (⟨n, a, b⟩ | ⟨x, a, b⟩)
+        · exact absurd (all n a) b
+        · exact absurd (List.any_eq_true.2 ⟨x, (closure_eq_reach g.1.1 pol names x).2 a, by simpa using b⟩) h2
 
 /-- the disabled half of a successful selection (after the `fix:` commit): a non-selected service is the old service
 minus its dependencies on the non-selected services whose name is not greater than its own -/
